@@ -289,5 +289,6 @@ pub fn def() -> PropDef {
             Space { name: "random", decode: decode_random, plan: |t| Plan::Random(t.n(60_000, 1_200_000)) },
         ],
         differential: false,
+        floors: &[("searches", 0.8)],
     }
 }
